@@ -831,8 +831,8 @@ def dbg_chain(mod, dbg_id):
             break
         line = d.get("line", "0")
         scope = d.get("scope")
-        fn, fl = _scope_info(mod, scope)
-        out.append((fn, fl, int(line)))
+        fn, fl, detail = _scope_info(mod, scope)
+        out.append((fn, fl, int(line), detail))
         dbg_id = d.get("inlinedAt")
     return out
 
@@ -843,9 +843,14 @@ def _scope_info(mod, scope):
         n += 1
         d = mod.md.get(scope)
         if d is None:
-            return ("?", "?")
+            return ("?", "?", False)
         if d["k"] == "sub":
             f = mod.md.get(d.get("file"), {})
-            return (d.get("name", d.get("linkageName", "?")), f.get("filename", "?"))
+            ln = d.get("linkageName", "")
+            fname = f.get("filename", "?")
+            # internal = in namespace detail / cxx20 helper / std:: ; public = everything else in fixedmath
+            internal = ("6detail" in ln) or ln.startswith("_ZN5cxx20") or ln.startswith("_ZSt") or ln.startswith("_ZNSt") \
+                or ln.startswith("_ZNKSt") or ln.startswith("_ZN9__gnu_cxx")
+            return (d.get("name", ln or "?"), fname, internal)
         scope = d.get("scope")
-    return ("?", "?")
+    return ("?", "?", False)
